@@ -41,6 +41,9 @@ R1 = {
         M("algo/Shift.tla", "algo/Shift_W4N2.cfg"),
         M("algo/Shift.tla", "algo/Shift_W3N3.cfg"),
         M("algo/Shift.tla", "algo/Shift_W2N3_pinned.cfg", expect_violation="WideOK"),
+        M("algo/BitScan.tla", "algo/BitScan_W2N3.cfg"), M("algo/BitScan.tla", "algo/BitScan_W3N2.cfg"),
+        M("algo/BitScan.tla", "algo/BitScan_W2N3_mut.cfg", expect_violation="CountOK"),
+        M("algo/BitScan.tla", "algo/BitScan_W2N4.cfg", tiers=T), M("algo/BitScan.tla", "algo/BitScan_W4N2.cfg", tiers=T), M("algo/BitScan.tla", "algo/BitScan_W3N3.cfg", tiers=T, workers=12),
         M("algo/Shift.tla", "algo/Shift_W2N5.cfg", tiers=T),
         M("algo/Shift.tla", "algo/Shift_W2N6.cfg", tiers=T, timeout=3000),
     ],
@@ -87,6 +90,9 @@ R1 = {
     ],
     "C16": [
         M("algo/HexNibble.tla", "algo/HexNibble.cfg", workers=8),
+        M("algo/Bytes.tla", "algo/Bytes_Q2L2.cfg"), M("algo/Bytes.tla", "algo/Bytes_Q1L3.cfg"),
+        M("algo/Bytes.tla", "algo/Bytes_Q2L2_mut.cfg", expect_violation="BEOK"),
+        M("algo/Bytes.tla", "algo/Bytes_Q2L3.cfg", tiers=T, workers=12), M("algo/Bytes.tla", "algo/Bytes_Q3L2.cfg", tiers=T, workers=12),
     ],
     "C09": [
         M("algo/Pow.tla", "algo/Pow_W4WIN2E2.cfg", workers=8), M("algo/Pow.tla", "algo/Pow_W4WIN4E2.cfg", workers=8),
